@@ -32,6 +32,42 @@ FAULTS = [
     ('cgsmiles.resolve:match_bonding_descriptors', 'cgsmiles/resolve.py',
      "                    if compatible(bond_source, bond_target, legacy=legacy):", "                    if compatible(bond_source, bond_target):",
      'legacy flag dropped'),
+    ('cgsmiles.resolve:MoleculeResolver.edges_from_bonding_descrpt', 'cgsmiles/resolve.py',
+     "                node_graph.nodes[edge[1]]['bonding'].remove(bonding[1])\n", "", 'second descriptor not consumed'),
+    ('cgsmiles.resolve:MoleculeResolver.edges_from_bonding_descrpt', 'cgsmiles/resolve.py',
+     'for _ in range(0, self.meta_graph.edges[(prev_node, node)]["order"]):', 'for _ in range(0, self.meta_graph.edges[(prev_node, node)]["order"] + 1):',
+     'one bond too many per base-graph edge'),
+    ('cgsmiles.resolve:MoleculeResolver.edges_from_bonding_descrpt', 'cgsmiles/resolve.py',
+     "                order = int(bonding[0][-1])\n", "                order = 1\n", 'annotated order ignored'),
+    ('cgsmiles.resolve:MoleculeResolver.edges_from_bonding_descrpt', 'cgsmiles/resolve.py',
+     "self.molecule.add_edge(edge[0], edge[1], bonding=bonding, order=order)", "self.molecule.add_edge(edge[0], edge[0] + 1, bonding=bonding, order=order)",
+     'bond attached to a neighbouring key'),
+    ('cgsmiles.resolve:MoleculeResolver.edges_from_bonding_descrpt', 'cgsmiles/resolve.py',
+     "                                                              legacy=self.legacy)", "                                                              legacy=True)",
+     'matching convention ignored'),
+    ('cgsmiles.graph_utils:merge_graphs', 'cgsmiles/graph_utils.py',
+     "        new_atom = copy.deepcopy(target_graph.nodes[node])", "        new_atom = target_graph.nodes[node]", 'template attributes not copied (shared and modified)'),
+    ('cgsmiles.graph_utils:merge_graphs', 'cgsmiles/graph_utils.py',
+     "fragment_offset = max(source_graph.nodes[last_node_idx].get('fragid', [0])) + 1", "fragment_offset = max(source_graph.nodes[last_node_idx].get('fragid', [0]))",
+     'membership index not advanced'),
+    ('cgsmiles.graph_utils:merge_graphs', 'cgsmiles/graph_utils.py',
+     "    for idx, node in enumerate(target_graph.nodes(), start=offset + 1):", "    for idx, node in enumerate(target_graph.nodes(), start=offset + 2):", 'keys leave a gap'),
+    ('cgsmiles.graph_utils:merge_graphs', 'cgsmiles/graph_utils.py',
+     "            source_graph.add_edge(correspondence[node1], correspondence[node2], **attrs)", "            source_graph.add_edge(correspondence[node1], correspondence[node2])",
+     'edge attributes (bond order) not copied'),
+    ('cgsmiles.coordinates:forward_map_molecule', 'cgsmiles/coordinates.py',
+     "            cg_pos += aa_mol.nodes[aa_node]['position']*weight", "            cg_pos += aa_mol.nodes[aa_node]['position']", 'weights ignored in the numerator'),
+    ('cgsmiles.cgsmiles_utils:find_complementary_bonding_descriptor', 'cgsmiles/cgsmiles_utils.py',
+     "            if descriptor[0] == '$' and descriptor[-1] == bonding_descriptor[-1]:", "            if descriptor[0] == '$':", 'order digit ignored for $ complements'),
+    ('cgsmiles.cgsmiles_utils:find_complementary_bonding_descriptor', 'cgsmiles/cgsmiles_utils.py',
+     "        compl = '>' + bonding_descriptor[1:]", "        compl = '>' + bonding_descriptor[2:]", 'label truncated for < complements'),
+    ('cgsmiles.sample:_set_bond_order_defaults', 'cgsmiles/sample.py',
+     "            if not bond_operator[-1].isdigit():\n                bond_operator += '1'\n            default_list.append(bond_operator)",
+     "            if not bond_operator[-1].isdigit():\n                bond_operator += '2'\n            default_list.append(bond_operator)", 'default order 2 in lists'),
+    ('cgsmiles.read_cgsmiles:_find_next_character', 'cgsmiles/read_cgsmiles.py',
+     "            return idx+start", "            return idx+start+1", 'position off by one'),
+    ('cgsmiles.write_cgsmiles:format_bonding', 'cgsmiles/write_cgsmiles.py',
+     "        if order_symb != '-':", "        if order_symb != '-' and order_symb != '.':", 'order-0 symbol not written'),
 ]
 
 
